@@ -137,6 +137,27 @@ static MatL gen_hess(const std::string& kind, int n, Rng& r, bool tridiag)
         if (n % 2)
             H(n - 1, n - 1) = a + 1;
     }
+    if (kind == "stall30")
+    {
+        // [B4 X; 0 R]: the Francis iteration stalls for 30 sweeps on the leading integer block B4 (the second exceptional shift is taken)
+        // while the trailing triangular block has already deflated
+        H.setZero();
+        const int B4[4][4] = {{1, -2, -1, 1}, {-2, -1, -2, -1}, {0, 1, 1, 1}, {0, 0, 2, 0}};
+        for (int i = 0; i < std::min(n, 4); i++)
+            for (int j = 0; j < std::min(n, 4); j++)
+                H(i, j) = (LD) B4[i][j];
+        for (int i = 0; i < n; i++)
+            for (int j = std::max(i, 4); j < n; j++)
+                H(i, j) = (i == j) ? (LD)(2 + (i % 5)) * (i % 2 ? -1.0L : 1.0L) : (LD)(r.below(3) - 1);
+    }
+    if (kind == "xscale")
+    {
+        // entries beyond sqrt(min) / sqrt(max) of the scalar type: norms must not be formed from squares (handled by the callers, which
+        // scale by a type dependent factor; here only the pattern: an order-one Hessenberg matrix)
+        for (int j = 0; j < n; j++)
+            for (int i = 0; i <= std::min(j + 1, n - 1); i++)
+                H(i, j) = r.sym() + (i == j ? 1.5L : 0.0L);
+    }
     if (kind == "companion")
     {
         H.setZero();
@@ -159,8 +180,8 @@ static MatL gen_hess(const std::string& kind, int n, Rng& r, bool tridiag)
     return H;
 }
 
-static const int NKINDS = 15;
-static const char* KINDS[NKINDS] = {"rand", "integer", "graded", "deflated", "tiny", "ratio", "perm", "jordan", "companion", "zero", "repeated", "defective", "negdiag", "subdiag", "eqreal"};
+static const int NKINDS = 17;
+static const char* KINDS[NKINDS] = {"rand", "integer", "graded", "deflated", "tiny", "ratio", "perm", "jordan", "companion", "zero", "repeated", "defective", "negdiag", "subdiag", "eqreal", "stall30", "xscale"};
 
 // ---- C08 ----------------------------------------------------------------------------------------------------------
 template <typename T, typename QR>
@@ -194,7 +215,8 @@ static void qr_case(const char* cls, const std::string& kind, const MatL& HL0, L
     Mat R = qr.matrix_R();
     Mat Q = Mat::Identity(n, n);
     qr.apply_YQ(Q);                       // Q = I * Q
-    Mat QtHQ(n, n);
+    // the destination already has the right size and holds unrelated data (a workspace used before): its old content must not matter
+    Mat QtHQ = Mat::Constant(n, n, T(7.25));
     qr.matrix_QtHQ(QtHQ);
     MatL QL = toL<T>(Q), RL = toL<T>(R), SL = HL - (LD) s * MatL::Identity(n, n);
     const LD scale = HL.norm() + std::fabs((LD) s);
@@ -272,7 +294,7 @@ static void ds_case(const std::string& kind, const MatL& HL0, LD sL, LD tL, int 
     qr.compute(H, s, t);
     Mat Q = Mat::Identity(n, n);
     qr.apply_YQ(Q);
-    Mat QtHQ(n, n);
+    Mat QtHQ = Mat::Constant(n, n, T(7.25));   // pre-sized destination with unrelated content
     qr.matrix_QtHQ(QtHQ);
     MatL QL = toL<T>(Q);
     const LD scale = HL.norm() + std::fabs((LD) s) + std::sqrt(std::fabs((LD) t));
@@ -318,11 +340,21 @@ static void qr_type(const Desc& d, int tycode)
             n = 2 + r.below(4);
         if (kind == "tiny" && tycode == 1)
             continue;   // 1e-150 / 1e120 are outside the range of float
+        // xscale: all entries beyond sqrt(min) (even cases) or sqrt(max) (odd cases) of T; the long double reference has no headroom
+        // left for T = long double, which is skipped
+        LD xs = 1;
+        if (kind == "xscale")
+        {
+            if (tycode == 3)
+                continue;
+            xs = ((c / NKINDS) % 2 == 0) ? std::sqrt((LD) std::numeric_limits<T>::min()) * 1e-6L : std::sqrt((LD) std::numeric_limits<T>::max()) * 1e3L;
+            n = std::min(n, 12);
+        }
         // shifts: 0, random, an exact eigenvalue of H (the only shifts the solvers ever use), huge
         for (int sk = 0; sk < 3; sk++)
         {
             {
-                MatL H = gen_hess(kind, n, r, false);
+                MatL H = gen_hess(kind, n, r, false) * xs;
                 LD s = 0;
                 if (sk == 1)
                     s = r.sym() * (H.norm() > 0 ? H.norm() : 1.0L);
@@ -335,7 +367,7 @@ static void qr_type(const Desc& d, int tycode)
                 if (n >= 3)
                 {
                     // double shift (s, t) = (2 Re mu, |mu|^2) for an eigenvalue mu of H, or arbitrary
-                    LD ss = r.sym(), tt = r.uni();
+                    LD ss = r.sym() * xs, tt = r.uni() * xs * xs;
                     if (sk == 2)
                     {
                         Eigen::EigenSolver<MatL> es(H, false);
@@ -348,11 +380,33 @@ static void qr_type(const Desc& d, int tycode)
                         ss = (LD) ((T) H(0, 0) + (T) H(1, 1));   // s = H00 + H11: exact zero in the first reflector
                         tt = (LD) ((T) H(0, 0) * (T) H(1, 1) - (T) H(0, 1) * (T) H(1, 0));
                     }
-                    ds_case<T>(kind, H, ss, tt, tycode, sk);
+                    if (kind == "xscale")
+                    {
+                        // the double shift forms (H^2 - s H + t I) e1, whose entries are products of entries of H: beyond sqrt(min) / sqrt(max)
+                        // that vector itself is not representable, so the double-shift class gets the two patterns in which every quantity it
+                        // has to form IS representable and only the NORM of a reflector needs care: a tiny H with the shift pair (2, 0), and an
+                        // order-one H whose last row and column are huge (they are touched by the last, two-row reflector only)
+                        MatL H2 = H / xs;
+                        if (xs < 1)
+                        {
+                            ss = 2;
+                            tt = 0;
+                            ds_case<T>(kind, H, ss, tt, tycode, sk);
+                        }
+                        else
+                        {
+                            for (int i = 0; i < n; i++)
+                                H2(i, n - 1) *= xs;
+                            H2(n - 1, n - 2) *= xs;
+                            ds_case<T>(kind, H2, r.sym(), r.uni(), tycode, sk);
+                        }
+                    }
+                    else
+                        ds_case<T>(kind, H, ss, tt, tycode, sk);
                 }
             }
             {
-                MatL Tm = gen_hess(kind, n, r, true);
+                MatL Tm = gen_hess(kind, n, r, true) * xs;
                 LD s = 0;
                 if (sk == 1)
                     s = r.sym() * (Tm.norm() > 0 ? Tm.norm() : 1.0L);
@@ -381,9 +435,13 @@ static void eig_type(const Desc& d, int tycode)
         const std::string kind = KINDS[c % NKINDS];
         if (kind == "tiny" && tycode == 1)
             continue;
+        if (kind == "xscale")
+            continue;   // the eigen-decompositions are documented for scalings within 1e+-100 (DESIGN section 12)
         int n = 2 + r.below(nmax - 1);
         if (c % 5 == 0)
             n = 2 + r.below(5);
+        // odd cases: the decomposition object has been used before for another matrix of the same size (a fresh one in even cases)
+        const bool reuse = (c % 2) == 1;
         // ---- TridiagEigen
         {
             MatL TL = gen_hess(kind, n, r, true);
@@ -394,7 +452,15 @@ static void eig_type(const Desc& d, int tycode)
             int thr = 0;
             try
             {
-                TridiagEigen<T> te(Tm);
+                TridiagEigen<T> te;
+                if (reuse)
+                {
+                    Mat other = Tm;
+                    for (int i = 0; i < n; i++)
+                        other(i, i) += T(1 + i % 3);
+                    te.compute(other);
+                }
+                te.compute(Tm);
                 MatL Z = toL<T>(Mat(te.eigenvectors()));
                 VecL dv = te.eigenvalues().template cast<LD>();
                 l.i("qscale", q(TT.norm())).i("qRes", q((TT * Z - Z * dv.asDiagonal()).norm())).i("qOrth", q((Z.transpose() * Z - MatL::Identity(n, n)).norm()));
@@ -422,7 +488,15 @@ static void eig_type(const Desc& d, int tycode)
                 int thr = 0;
                 try
                 {
-                    UpperHessenbergSchur<T> sc(H);
+                    UpperHessenbergSchur<T> sc;
+                    if (reuse)
+                    {
+                        Mat other = H;
+                        for (int i = 0; i < n; i++)
+                            other(i, i) += T(1 + i % 3);
+                        try { sc.compute(other); } catch (...) {}
+                    }
+                    sc.compute(H);
                     MatL U = toL<T>(Mat(sc.matrix_U())), Tm = toL<T>(Mat(sc.matrix_T()));
                     l.i("qscale", q(HH.norm())).i("qRes", q((U * Tm * U.transpose() - HH).norm())).i("qOrth", q((U.transpose() * U - MatL::Identity(n, n)).norm()));
                     // quasi upper triangular: exact zeros below the first subdiagonal, no two consecutive nonzero subdiagonal entries
@@ -463,7 +537,15 @@ static void eig_type(const Desc& d, int tycode)
                 int thr = 0;
                 try
                 {
-                    UpperHessenbergEigen<T> he(H);
+                    UpperHessenbergEigen<T> he;
+                    if (reuse)
+                    {
+                        Mat other = H;
+                        for (int i = 0; i < n; i++)
+                            other(i, i) += T(1 + i % 3);
+                        try { he.compute(other); } catch (...) {}
+                    }
+                    he.compute(H);
                     Eigen::Matrix<C, Eigen::Dynamic, 1> ev = he.eigenvalues();
                     Eigen::Matrix<C, Eigen::Dynamic, Eigen::Dynamic> X = he.eigenvectors();
                     CMatL XL = X.template cast<CLD>();
